@@ -96,6 +96,8 @@ class Model:
             return [(variant("Ok", ("tag", a)), ts), (E, ts)]
         if name == "get_register_len":
             return [(("depth", d), ts)]
+        if name in ("add_concatenation", "add_range", "add_slice", "add_partial", "add_pair", "merge_to_symbol_list") and self.record_events:
+            return [(variant("Ok", TOP), (d, v, f, ev + (("ctor", name) + tuple(args[1:]),), np)), (E, ts)]
         if name in ("add_true", "add_false") and self.record_events:
             return [(variant("Ok", TOP), (d, v, f, ev + ((name,),), np)), (E, ts)]
         if name in ("defer_op", "apply", "resolve"):
